@@ -102,11 +102,13 @@ func suiteLockup2(e *Env) {
 		}
 		lk2SecondAccount(e, c, r.Bool())
 		lk2MultiDenomSend(e, c, r.Bool())
+		lk2TwoLockedDenoms(e, c, false)
+		lk2TwoLockedDenoms(e, c, true)
 	}
 }
 
-func lk2Init(c *sim.Chain, nv bool, owner sdk.AccAddress, funds int64, start, end time.Time) (sdk.AccAddress, error) {
-	coins := sdk.Coins{sdk.NewInt64Coin("urise", funds)}
+func lk2Init(c *sim.Chain, nv bool, owner sdk.AccAddress, funds int64, start, end time.Time, extra ...sdk.Coin) (sdk.AccAddress, error) {
+	coins := sdk.NewCoins(append([]sdk.Coin{sdk.NewInt64Coin("urise", funds)}, extra...)...)
 	var m *accountsv1.MsgInit
 	if nv {
 		m = &accountsv1.MsgInit{Sender: c.Accs[1].Addr.String(), AccountType: nvlock.CONTINUOUS_LOCKING_ACCOUNT,
@@ -133,8 +135,14 @@ func lk2Send(c *sim.Chain, nv bool, caller, lock, sender, to sdk.AccAddress, amt
 		m = &accountsv1.MsgExecute{Sender: caller.String(), Target: lock.String(), Message: lkAny(&sdtypes.MsgSend{Sender: sender.String(), ToAddress: to.String(), Amount: amt})}
 	}
 	_, err, p := c.Exec(m)
+	lk2LastErr = ""
+	if err != nil {
+		lk2LastErr = strings.ReplaceAll(err.Error(), "\n", " ")
+	}
 	return class(err, p)
 }
+
+var lk2LastErr string
 
 // Two accounts of the same type with different owners on one chain (one implementation object serves both): the owner of the
 // first must not be able to act for the second, and the second's own owner must.
@@ -190,6 +198,44 @@ func lk2MultiDenomSend(e *Env, c *sim.Chain, nv bool) {
 			ds = append(ds, x.String())
 		}
 		e.Oracle("outflow_bound", left.Cmp(minLeft) >= 0, "nv=%v multi-denom send %s -> %s: locked denom left %s, must keep at least %s", nv, strings.Join(ds, "+"), cls, left, minLeft)
+		if cls == "err" {
+			e.Note("multi-denom send nv=%v refused: %.200s", nv, lk2LastErr)
+		}
 	}
 	e.Stat("lockup2.multi_denom")
+}
+
+
+// The account is funded at Init with TWO denoms, both under the schedule: a dust amount of a denom that sorts before the main
+// one (1 unit: fully unlocked by rounding once more than half of the schedule has passed) and the main amount.  A send naming
+// both must still keep the locked part of the main denom, whatever the check concluded for the first coin.
+func lk2TwoLockedDenoms(e *Env, c *sim.Chain, nv bool) {
+	start := c.Time
+	const funds = 900_000
+	const span = 1000 // seconds
+	lock, err := lk2Init(c, nv, c.Accs[0].Addr, funds, start, start.Add(span*time.Second), sdk.NewInt64Coin("uaaa", 1))
+	if err != nil {
+		e.Note("two-locked-denoms scenario: init: %v", err)
+		return
+	}
+	for _, dt := range []time.Duration{100 * time.Second, 500 * time.Second, 200 * time.Second} {
+		if _, err := c.NextBlock(dt); err != nil {
+			e.Oracle("no_halt", false, "two-locked-denoms scenario: %v", err)
+			return
+		}
+		elNow := int64(c.Time.Sub(start) / time.Second)
+		free := funds*elNow/span - (funds - c.Bal(lock, "urise").Int64()) // unlocked by now and not yet sent
+		for _, amt := range []int64{funds, c.Bal(lock, "urise").Int64(), free / 2} { // the last one is within the schedule: accepted once the dust coin is unlocked
+			if amt <= 0 || c.Bal(lock, "uaaa").IsZero() {
+				continue
+			}
+			set := sdk.Coins{sdk.NewInt64Coin("uaaa", 1), sdk.NewInt64Coin("urise", amt)}
+			cls := lk2Send(c, nv, c.Accs[0].Addr, lock, c.Accs[0].Addr, c.Accs[1].Addr, set)
+			el := int64(c.Time.Sub(start) / time.Second)
+			unlocked := funds*el/span + 1
+			left := c.Bal(lock, "urise").Int64()
+			e.Oracle("outflow_bound", left >= funds-unlocked, "nv=%v two locked denoms, send %s at %d/%d s -> %s: main denom left %d, must keep at least %d", nv, set, el, span, cls, left, funds-unlocked)
+			e.Stat("lockup2.two_locked_denoms." + cls)
+		}
+	}
 }
